@@ -75,9 +75,30 @@ def coq_kwargs_pub(kw):
     return olist(f"({int(k)}, KInt {zlit(v)})" for k, v in sorted(kw.items(), key=lambda p: int(p[0])))
 
 
+AUTHIDS = [None, "alice"]
+AUTHROLES = [None, "user"]
+TXHASHES = [None, "h1"]
+HOP_AUTH = {"session": 11, "authid": "bob", "authrole": "router"}
+HOP_ANON = {"session": 12, "authid": None, "authrole": "anonymous"}
+FORWARDS = [None, [], [HOP_AUTH], [HOP_ANON], [HOP_AUTH, HOP_ANON], [HOP_ANON, HOP_AUTH, HOP_AUTH]]
+
+
+def extra_token(authid, authrole, txhash, ff):
+    """the model keeps these EventDetails fields opaque: one number per combination (-1: not a generated value)"""
+    try:
+        return (AUTHIDS.index(authid) + 2 * AUTHROLES.index(authrole) + 4 * TXHASHES.index(txhash)
+                + 8 * FORWARDS.index(ff))
+    except ValueError:
+        return -1
+
+
+def event_token(e):
+    return extra_token(e.get("authid"), e.get("authrole"), e.get("txhash"), e.get("ff"))
+
+
 def coq_event(e):
     return (f"(Ev {e['sub']} {e['pub']} {olist(zlit(a) for a in e['args'])} {coq_kwargs_pub(e['kwargs'])} "
-            f"{optn(e.get('publisher'))} {optn(e.get('topic'))} {optb(e.get('retained'))})")
+            f"{optn(e.get('publisher'))} {optn(e.get('topic'))} {optb(e.get('retained'))} {event_token(e)})")
 
 
 def coq_msg(m):
@@ -149,8 +170,9 @@ def coq_out(o):
                 k = KEYS.index(name)
                 if isinstance(v, dict) and "$det" in v:
                     d = v["$det"]
-                    if not isinstance(d["topic"], int) or d["owner"] < 0: return NEVER
-                    kws.append(f"({k}, Det {d['owner']} {d['sub']} {d['pub']} {optn(d['publisher'])} {d['topic']} {optb(d['retained'])})")
+                    tok = extra_token(d.get("authid"), d.get("authrole"), d.get("txhash"), d.get("ff"))
+                    if not isinstance(d["topic"], int) or d["owner"] < 0 or tok < 0 or d.get("enc_algo") is not None: return NEVER
+                    kws.append(f"({k}, Det {d['owner']} {d['sub']} {d['pub']} {optn(d['publisher'])} {d['topic']} {optb(d['retained'])} {tok})")
                 elif isinstance(v, int) and not isinstance(v, bool):
                     kws.append(f"({k}, KInt {zlit(v)})")
                 else:
@@ -307,7 +329,11 @@ def gen_event(rng, sim):
             kw[str(k)] = rng.randrange(-2, 9)
     return {"sub": sub, "pub": rng.randrange(900, 999), "args": args, "kwargs": kw, "shape": shape,
             "publisher": rng.choice((None, None, 5, 6)), "topic": rng.choice((None, None, None, 8)),
-            "retained": rng.choice((None, None, True, False))}
+            "retained": rng.choice((None, None, True, False)),
+            # the other fields that end up in EventDetails (a forwarded event: 0..n hops, anonymous hops have authid null)
+            "authid": rng.choice((None, None, "alice")), "authrole": rng.choice((None, None, "user")),
+            "txhash": rng.choice((None, None, None, "h1")),
+            "ff": copy.deepcopy(rng.choice(FORWARDS)) if rng.random() < 0.35 else None}
 
 
 def gen_inline_sub(rng, sim, rid, topic, may_event, p=0.25):
@@ -402,7 +428,9 @@ def expected_kwargs(H, label, sid, topic, ev):
     if H["det"] is not None:          # H["det"] = requested(effective options), set by the oracle
         kw[KEYS[H["det"]]] = {"$det": {"owner": label, "sub": sid, "pub": ev["pub"], "publisher": ev.get("publisher"),
                                        "topic": ev["topic"] if ev.get("topic") is not None else topic,
-                                       "retained": ev.get("retained")}}
+                                       "retained": ev.get("retained"), "authid": ev.get("authid"),
+                                       "authrole": ev.get("authrole"), "txhash": ev.get("txhash"), "ff": ev.get("ff"),
+                                       "enc_algo": None}}
     return kw
 
 
@@ -568,6 +596,9 @@ class Oracle:
         elif k == "event":
             ev = op[1]
             sid = ev["sub"]
+            other = [r for r in raised if r[1][0] != "ProtocolError"]
+            if other:          # whatever the subscription state: only a protocol violation may leave onMessage for a well-formed EVENT
+                self.flag(self.P + "exception-escaped", f"{where}: {other} left onMessage")
             if self.lost:
                 if invokes: self.flag(self.P + "after-transport-loss", f"{where}: handlers invoked after the transport was lost")
             elif sid in self.att:
@@ -777,6 +808,8 @@ def run(ck):
         "txaio callback ordering (Twisted synchronous; asyncio one loop turn later, gather after its members)",
         "transport that answers from inside send(): the fake transport delivers the scripted router messages to "
         "session.onMessage before send() returns, catches what onMessage raises and goes on (as an in-process router link would)",
+        "EventDetails fields publisher_authid / publisher_authrole / transaction_hash / forward_for are opaque in the model "
+        "(one token per combination, copied from the EVENT into the details); the oracle compares them field by field",
         "not modelled (never generated): encrypted payloads (enc_algo / payload codec), x_acknowledged_delivery, "
         "check_types wrappers, coroutine handlers, cancelled on_reply futures, request id wrap-around at 2**53, "
         "re-joining a session object after transport loss, falsy handler objects (`if handler.obj`)",
@@ -790,7 +823,9 @@ def run(ck):
         "handler of the same event unsubscribed it meanwhile",
     ]
     ck.rule.append("random interleavings (seeded) over subscribe(callable)/subscribe(decorated object)/unsubscribe/"
-                   "SUBSCRIBED/UNSUBSCRIBED/ERROR/revocation/EVENT(all payload shapes, details)/transport loss; handlers are real "
+                   "SUBSCRIBED/UNSUBSCRIBED/ERROR/revocation/EVENT(all payload shapes; every field that ends up in EventDetails: "
+                   "publisher, publisher_authid/authrole, topic, retained, transaction_hash, forward_for with 0..3 hops incl. "
+                   "anonymous ones)/transport loss; handlers are real "
                    "functions of every signature kind (fixed / *args / **kwargs / both / keyword-only, int or str type hints) "
                    "subscribed with check_types on or off and with every form of SubscribeOptions (none / details None,False,True / "
                    "details_arg / invalid combination; match, get_retained; per-method and call-level options of the object form); "
